@@ -225,6 +225,9 @@ class SubsequenceSearch:
             if self.use_lb:
                 lb = lb_keogh(self.query, series, **self.dists_options)
                 if lb > max_dist:
+                    if self.keep_all_distances or k is None:
+                        # The distance is larger than max_dist, do not leave the initial 0
+                        self.distances[idx] = np.inf
                     continue
             dist = distance(self.query, series, **self.dists_options)
             if k is not None:
